@@ -8,7 +8,9 @@ Open Scope Z_scope.
 Definition bytes_eqb (a b : bytes) : bool := list_Z_eqb a b.
 
 (* fn 1: input (t len v ref) with ref = () or (#reference-bytes computed by the harness' own codec);
-   output (enc-outcome dref) with dref = () or the implementation's decode outcome of the reference bytes *)
+   output (enc-outcome dref pure) with dref = () or the implementation's decode outcome of the reference bytes and
+   pure = the observation that a second Bytes call on the same value object gives the same outcome and that the value
+   object is unchanged by encoding (C04/Spec.v pure_obs / pure_ok): the prescribed bytes for every call, not only the first *)
 Definition run_layout (i : tree) : tree :=
   let t := t_int (t_nth 0 i) in
   let len := t_int (t_nth 1 i) in
@@ -18,7 +20,8 @@ Definition run_layout (i : tree) : tree :=
           match t_nth 3 i with
           | TL [TB rb] => tree_of_outcome tree_of_value (dec_value t rb)
           | _ => TL []
-          end]
+          end;
+          pure_obs]
   | None => tbad
   end.
 
@@ -79,7 +82,7 @@ Definition spec (fn : Z) (i o : tree) : bool :=
       let t := t_int (t_nth 0 i) in
       let len := t_int (t_nth 1 i) in
       match value_of_tree (t_nth 2 i), bytes_outcome_of_tree (t_nth 0 o) with
-      | Some v, Some eo => layout_ok t len v (t_nth 3 i) eo (t_nth 1 o)
+      | Some v, Some eo => layout_ok t len v (t_nth 3 i) eo (t_nth 1 o) && pure_ok (t_nth 2 o)
       | _, _ => false
       end
   | 4 => spec_helper i o
